@@ -25,23 +25,27 @@ Fixpoint split_by {A} (lens : list nat) (l : list A) : list (list A) :=
 Definition Vrows (rs : list row) : V := Vl (Vl VZ) rs.
 
 (* ---- model observation *)
+(* every model object is fed on its own (an exception of one does not stop the others): per
+   schedule the observation is [two-finger; skip-ahead; leader-follower a; leader-follower b],
+   each the list of getNumIntersects() after every call, or an error.  The two-finger object is
+   only fed from the first non-empty batch on: fed an empty first batch it raises IndexError
+   (trace0[0]) and stays unusable -- C19_two_finger_empty_first_refuted; proposed fix
+   twofinger-empty-first-batch.diff *)
+Definition Vres (r : option (list Z)) : V :=
+  match r with Some l => Vl VZ l | None => Verr 1 end.
+
 Definition sched_model (fs : list fpair) (lens : list nat) : V :=
   let all := map f_id fs in
   let d := depth_of fs in
   let segs := split_by lens fs in
-  match tf_feed all d segs, sa_feed all d segs, lf_feed false all d segs, lf_feed true all d segs with
-  | Some tf, Some sa, Some la, Some lb => VL [Vl VZ tf; Vl VZ sa; Vl VZ la; Vl VZ lb]
-  | _, _, _, _ => Verr 1
-  end.
+  VL [Vres (tf_feed all d (drop_lead segs)); Vres (sa_feed all d segs);
+      Vres (lf_feed false all d segs); Vres (lf_feed true all d segs)].
 
 Definition lsched_model (fs : list fpair) (lens : list nat) : V :=
   let all := map f_id fs in
   let d := depth_of fs in
   let segs := split_by lens fs in
-  match lfs_feed false all d segs, lfs_feed true all d segs with
-  | Some la, Some lb => VL [Vl VZ la; Vl VZ lb]
-  | _, _ => Verr 1
-  end.
+  VL [Vres (lfs_feed false all d segs); Vres (lfs_feed true all d segs)].
 
 Definition c19_model (c : c19_case) : V :=
   match c with
@@ -63,25 +67,50 @@ Definition c19_model (c : c19_case) : V :=
 Fixpoint cum (acc : Z) (l : list Z) : list Z :=
   match l with [] => [] | x :: l' => (acc + x) :: cum (acc + x) l' end.
 
+(* what a count list must be from entry k on (k = number of leading empty batches: before any
+   intersection has run there is no trace, and what a model reports then is not constrained) *)
+Definition lead_eqb (k : nat) (o : V) (spec : list Z) : bool :=
+  match o with
+  | VL l => Nat.eqb (length l) (length spec) && V_eqb (VL (skipn k l)) (Vl VZ (skipn k spec))
+  | VZ _ => false
+  end.
+
+Fixpoint forall2b {A B} (f : A -> B -> bool) (l : list A) (m : list B) : bool :=
+  match l, m with
+  | [], [] => true
+  | x :: l', y :: m' => f x y && forall2b f l' m'
+  | _, _ => false
+  end.
+
 (* after every call each model has added exactly the reference quantity of the
-   intersections of that batch, whatever the batching *)
-Definition sched_spec (fs : list fpair) (lens : list nat) : V :=
+   intersections of that batch, whatever the batching -- empty batches included *)
+Definition sched_holds (fs : list fpair) (lens : list nat) (o : V) : bool :=
   let segs := split_by lens fs in
-  VL [Vl VZ (cum 0 (map (total merge_steps) segs));
-      Vl VZ (cum 0 (map (total skip_steps) segs));
-      Vl VZ (cum 0 (map (total presented) segs));
-      Vl VZ (cum 0 (map (total (fun a b => presented b a)) segs))].
+  let k := lead_n segs in
+  match o with
+  | VL [tf; sa; la; lb] =>
+    V_eqb tf (Vl VZ (cum 0 (map (total merge_steps) (drop_lead segs))))
+    && lead_eqb k sa (cum 0 (map (total skip_steps) segs))
+    && lead_eqb k la (cum 0 (map (total presented) segs))
+    && lead_eqb k lb (cum 0 (map (total (fun a b => presented b a)) segs))
+  | _ => false
+  end.
 
 (* leader-follower style: the model of either operand has counted, after every call, one
    attempt per element the leader presented in the intersections of the batches so far *)
-Definition lsched_spec (fs : list fpair) (lens : list nat) : V :=
+Definition lsched_holds (fs : list fpair) (lens : list nat) (o : V) : bool :=
   let segs := split_by lens fs in
-  VL [Vl VZ (cum 0 (map (total led) segs)); Vl VZ (cum 0 (map (total led) segs))].
+  let k := lead_n segs in
+  match o with
+  | VL [la; lb] =>
+    lead_eqb k la (cum 0 (map (total led) segs)) && lead_eqb k lb (cum 0 (map (total led) segs))
+  | _ => false
+  end.
 
 Definition c19_holds (c : c19_case) (o : V) : bool :=
   match c, o with
-  | CI fs scheds, VL [_; _; _; VL rs] => V_eqb (VL rs) (VL (map (sched_spec fs) scheds))
-  | CL fs scheds, VL [_; _; _; VL rs] => V_eqb (VL rs) (VL (map (lsched_spec fs) scheds))
+  | CI fs scheds, VL [_; _; _; VL rs] => forall2b (sched_holds fs) scheds rs
+  | CL fs scheds, VL [_; _; _; VL rs] => forall2b (lsched_holds fs) scheds rs
   | CS t u depth radix lat, VL [VL [VZ x]; VL [VZ y]] =>
     Z.eqb x y
     && match lat with
@@ -108,8 +137,8 @@ Definition wf_fs (fs : list fpair) : bool :=
   && fids_sorted (map f_id fs)
   && forallb (fun p => ssorted (occ (f_d p) (f_a p)) && ssorted (occ (f_d p) (f_b p))) fs.
 
-Definition wf_sched (n : nat) (lens : list nat) : bool :=
-  forallb (fun k => Nat.ltb 0 k) lens && Nat.eqb (sum_nat lens) n.
+(* a schedule: numbers of consecutive intersections per batch, 0 = an empty batch *)
+Definition wf_sched (n : nat) (lens : list nat) : bool := Nat.eqb (sum_nat lens) n.
 
 Definition c19_wf (c : c19_case) : bool :=
   match c with
